@@ -33,6 +33,7 @@ type ServerOpts struct {
 	HandleTimeout time.Duration
 	WithContext   bool
 	Host          string // default 127.0.0.1
+	Relay         bool   // the client connects through a segment-choosing relay (Env only)
 }
 
 type Server struct {
@@ -96,6 +97,12 @@ var objSeq int64
 
 // NewProxy binds a generated proxy object to the server through a direct address.
 func (s *Server) NewProxy(comm *tars.Communicator, proxy any, timeoutMs int) (string, error) {
+	return s.NewProxyVia(comm, proxy, s.Port, timeoutMs)
+}
+
+// NewProxyVia is NewProxy with the port the client connects to chosen by the caller (a relay
+// in front of the server).
+func (s *Server) NewProxyVia(comm *tars.Communicator, proxy any, port int, timeoutMs int) (string, error) {
 	p, ok := proxy.(tars.ProxyPrx)
 	if !ok {
 		return "", fmt.Errorf("%T is not a proxy (no SetServant)", proxy)
@@ -105,7 +112,7 @@ func (s *Server) NewProxy(comm *tars.Communicator, proxy any, timeoutMs int) (st
 	if s.Opts.Proto == "udp" {
 		proto = "udp"
 	}
-	comm.StringToProxy(fmt.Sprintf("%s@%s -h %s -p %d -t 60000", obj, proto, s.Host, s.Port), p)
+	comm.StringToProxy(fmt.Sprintf("%s@%s -h %s -p %d -t 60000", obj, proto, s.Host, port), p)
 	if timeoutMs > 0 {
 		if t, ok := proxy.(interface{ TarsSetTimeout(int) }); ok {
 			t.TarsSetTimeout(timeoutMs)
